@@ -25,7 +25,8 @@ CFG = {
                   "(modulo merging adjacent Prints) equal the automaton run over the decoded stream - hence read-split independence and text conservation for every byte stream; for text and ANY oracle each Print is one "
                   "oracle cluster unless cut exactly at a read boundary, and carries U+FFFD for an absorbed invalid byte (= finding F102d, exactly). "
                   "Whole-stream refinement model <= Spec.VT500: simulation relation, table-wide step check kernel-decided for all states x control flags x runes, every byte stream and read splitting delivers exactly the Spec's items "
-                  "with F102/F102c switched on (and the Spec proper on every stream avoiding the two trigger situations); both parameter decoders equal the Spec's on any collected bytes including Go int overflow "
+                  "with F102/F102c switched on (and the Spec proper on every stream avoiding the two trigger situations); inside the F102d region (oracle only assumed never to join a C0 control) "
+                  "the items are the Spec's for the decoded stream with, at most, invalid bytes read as U+FFFD; both parameter decoders equal the Spec's on any collected bytes including Go int overflow "
                   "(CSI wraps mod 2^64, DCS >= 2^63 => error + nil parameters). Action bodies (collect ... csiDispatch, hook) are interpreted from statement skeletons regenerated from the source.",
     "level_note": "Proved: see notes/C02.md tables (Props/C02, C02Text, C02Refine, C02Acts: 80 theorems). Validated by correspondence only: the meaning of bufio/utf8 stdlib calls in Model/ParserIO.lean, Print width. "
                   "False with witness (recorded findings): F102 ST of an empty string delivered, F102c C0 inside ST, F102d invalid byte joined by the oracle -> U+FFFD "
